@@ -244,6 +244,9 @@ def cases(draw):
         "processes": draw(st.sampled_from([1, 1, 1, 2, 3])) if method == "optgp" else 1,
         "rerun": draw(st.sampled_from(["same-model", "fresh-model"])),
         "integer": draw(st.sampled_from([False] * 29 + [True])),
+        # another sampler object of the same class, on a model with twice the bounds, created before or after the one
+        # under test and alive while it samples (since seeded change C16-5: state shared between sampler objects)
+        "bystander": draw(st.sampled_from([None, None, None, "before", "after", "after"])),
     }
 
 
@@ -340,16 +343,36 @@ def _make_sampler(model, case):
     return OptGPSampler(model, processes=case["processes"], **kw)
 
 
-def _run(model, case):
+def _bystander(case):
+    """A sampler of the same class on the same network with every bound and constraint side doubled (a feasible region
+    that contains the tested one properly), other seed. It only has to exist; whether it can be built is irrelevant."""
+    import copy
+
+    spec2 = copy.deepcopy(case["spec"])
+    for r in spec2["rxns"]:
+        r["lb"], r["ub"] = 2 * r["lb"], 2 * r["ub"]
+    for c in spec2["cons"]:
+        c["lb"], c["ub"] = (None if c["lb"] is None else 2 * c["lb"]), (None if c["ub"] is None else 2 * c["ub"])
+    try:
+        return _make_sampler(build.build_model(spec2, case["path"]), {**case, "seed": case["seed"] % 1000 + 7})
+    except Exception:  # noqa: BLE001 - a distractor, nothing is asserted about it
+        return None
+
+
+def _run(model, case, bystander=None):
     """Returns (frames, sampler|None)."""
     from cobra.sampling import sample
 
+    other = _bystander(case) if bystander == "before" else None
     if case["api"] == "function":
         kw = {"method": case["method"], "thinning": case["thinning"], "seed": case["seed"]}
         if case["method"] == "optgp":
             kw["processes"] = case["processes"]
         return [sample(model, case["n"], **kw)], None
     sampler = _make_sampler(model, case)
+    if bystander == "after":
+        other = _bystander(case)
+    sampler._vfw_bystander = other  # keep it alive as long as the tested sampler
     if case["api"] == "class":
         return [sampler.sample(case["n"], fluxes=case["fluxes"])], sampler
     return list(sampler.batch(case["n"], case["batch_num"], fluxes=case["fluxes"])), sampler
@@ -475,7 +498,7 @@ def check_case(case, ctx):
     spec = case["spec"]
     rids = [r["id"] for r in spec["rxns"]]
     classes = [f"method-{case['method']}", f"api-{case['api']}", f"fluxes-{case['fluxes']}", f"proc-{case['processes']}",
-               f"thinning-{case['thinning']}", f"nproj-{case['nproj']}", f"rerun-{case['rerun']}"]
+               f"thinning-{case['thinning']}", f"nproj-{case['nproj']}", f"rerun-{case['rerun']}", f"bystander-{case.get('bystander')}"]
     classes += [f"mod-{m}" for m in case["mods"]] or ["mod-none"]
     dim = polytope_dimension(spec)
     if dim is None:
@@ -506,7 +529,7 @@ def check_case(case, ctx):
         (c["lb"] is None or c["lb"] <= 0) and (c["ub"] is None or c["ub"] >= 0) for c in spec["cons"])
     refused = None
     try:
-        frames, sampler = _run(model, case)
+        frames, sampler = _run(model, case, case.get("bystander"))
     except (ValueError, TypeError) as e:
         refused = e
     except Exception as e:  # noqa: BLE001
